@@ -116,6 +116,9 @@ External functions.  "F#extern", "T.M#extern", "import/path:T.M#extern" (given b
   (ASSUMED of the length of the argument) and are spliced back.  This is how a clock, a
   reader (io:ReadFull#externw) or a marshaller enters.  ASSUMED: F touches nothing else the
   callers read or write.  Definitions with such parameters are not validated differentially.
+  A translated function G that calls external functions can itself be called (outside loops;
+  not if it calls "#externw" functions): each such parameter x_<name> of G becomes a parameter
+  x_G_<k>_<name> of the caller - "that answer, inside the k-th call of G in this function".
 Statements.  x := e, var x T [= e], x = e, x op= e, x++, x--, a, b = e1, e2 (parallel),
   a, b := f(...), _ = e (evaluated for its panics), if/else if/else (with init), switch on
   an integer/bool tag or tagless (no fallthrough; case expressions must not be able to
